@@ -255,6 +255,7 @@ class Gen:
             env[x] = t
         self.protected = set()
         self.loop_depth = 0
+        self.watch = []
         budget = r.randint(1, 2) if simple else r.randint(3, 7)
         body, env, live = self.block(env, 0, budget, top=True)
         stmts += body
@@ -658,6 +659,7 @@ class Gen:
             x = r.choice(carried)
             tb.append(("assign", x, self.expr(self.pick_subtype(self.decl[x]), et, 1)))
             self.stat("assign-before-jump")
+            self.watch.append(x)
         return ("ite", cond, seq(tb + [(jump,)]), ("pass",)), ef
 
     def pick_subtype(self, t):
@@ -741,6 +743,7 @@ class Gen:
         else:
             head = []
         self.loop_depth += 1
+        outer_watch, self.watch = self.watch, []
         if r.random() < 0.35:
             j = self.jump_if(et, depth + 1)
             if j is not None:
@@ -748,6 +751,9 @@ class Gen:
                 et = j[1]
         body, _, live = self.block(et, depth + 1, r.randint(1, 3))
         self.loop_depth -= 1
+        # locals assigned just before a break/continue are observed at the top of the body (next iteration)
+        head = [self.new_probe(("var", x)) for x in sorted(set(self.watch))] + head
+        self.watch = outer_watch
         if not live:
             post = []
         inc = ("assign", i, ("add", ("var", i), ("intLit", 1)))
